@@ -26,7 +26,7 @@ SPEC = {
     "needs_thorough": ["probe-rel", "probe-chk"],
     "rule": ("programs from G_isa, G_casc, G_bank and include-wrapping variants x 12 views drawn from the parameter space; "
              "non-trivial = successful program with >= 3 items whose views were all checked; distinct = distinct (source, views)"),
-    "monitors": ["annotated", "tcgame", "addrspan", "symbols", "mesen-mlb", "address-assigned-by-layout"],
+    "monitors": ["annotated", "tcgame", "addrspan", "symbols", "mesen-mlb", "address-assigned-by-layout", "labels-listed-once"],
     "min_nontrivial": {"quick": 500, "thorough": 10000},
     "assumptions": ["spans and symbol values of the record are the ground truth for 'the assembly'"],
 }
@@ -92,6 +92,24 @@ def judge(ctx, job, rec, files, views):
     bits = lib.bits_str(n, v)
     fm = rec.get("formats") or {}
     good = True
+    # every declared label is an item of the listings (with or without an output position): exactly one zero-sized
+    # span at its declaration, carrying its final value - independent of the span list the listings are printed from
+    labels = [sy for sy in (rec.get("syms") or []) if sy and sy.get("kind") == "label" and sy.get("span") and sy["value"]["k"] == "int"]
+    if labels:
+        ctx.monitor("labels-listed-once")
+        index = {}
+        for sp in spans:
+            if sp[1] == 0:
+                index.setdefault((sp[3], sp[4], sp[5]), []).append(sp[2])
+        for sy in labels:
+            got = index.get((sy["span"]["f"], sy["span"]["a"], sy["span"]["b"]), [])
+            if len(got) != 1 or got[0] != sy["value"]["v"]:
+                ctx.violation("listing", {"kind": "label-row-missing-or-repeated", "rows": min(len(got), 2),
+                                          "label_in_bank_without_output": sy.get("bank") is not None and bool(rec.get("banks")) and
+                                          (rec["banks"][sy["bank"]] or {}).get("outp") is None}, job,
+                              {"label": sy["name"], "value": sy["value"]["v"], "rows": 1}, {"rows": got})
+                good = False
+                break
     banks = [b for b in rec.get("banks") or [] if b]
     if banks:
         ctx.monitor("address-assigned-by-layout")
